@@ -1037,10 +1037,31 @@ func genMaskedOp(rt *rapid.T, op string, d DT) Case {
 				switch op {
 				case "Gt", "Gte", "Lte", "ElNe":
 					c = genCmpCase(rt, "C15", op, d, rapid.SampledFrom([]string{"TT", "TS"}).Draw(rt, "form"), "pkg", "safe", false, lay)
+					// the same-type kernels too: result in the operand's type, in place, or into a reuse tensor
+					switch rapid.IntRange(0, 5).Draw(rt, "cmpmode") {
+					case 0:
+						c.SameType = true
+					case 1:
+						c.Mode, c.SameType = "unsafe", true
+					case 2:
+						c.Mode, c.SameType = "reuse", true
+						c.Dst = genDst(rt, c.A.Shape, d, "dst")
+						c.Dst.L = Layout{Root: "rm"}
+					}
 				case "Abs", "Sign", "Cube", "Inv", "Sqrt", "Exp", "Tanh":
 					c = genUnaryCase(rt, "C15", op, d, "safe", lay)
 				case "Lt", "ElEq":
 					c = genCmpCase(rt, "C15", op, d, rapid.SampledFrom([]string{"TT", "TS"}).Draw(rt, "form"), "pkg", "safe", false, lay)
+					switch rapid.IntRange(0, 7).Draw(rt, "cmpmode") {
+					case 0:
+						c.SameType = true
+					case 1:
+						c.Mode, c.SameType = "unsafe", true
+					case 2:
+						c.Mode, c.SameType = "reuse", true
+						c.Dst = genDst(rt, c.A.Shape, d, "dst")
+						c.Dst.L = Layout{Root: "rm"}
+					}
 				case "Neg", "Square":
 					c = genUnaryCase(rt, "C15", op, d, "safe", lay)
 				default:
